@@ -139,7 +139,8 @@ def mul_add(p, a, k1, P1, k2, P2):
 
 # ----------------------------------------------------------------------------------------------- small curves
 def all_points(p, a, b):
-    """Every affine point by brute force over all (x, y) pairs (sorted), without any square-root algorithm."""
+    """Every affine point (sorted) by brute force: a complete table of the squares y*y mod p is matched against
+    the right-hand side for every x - no square-root algorithm, no Legendre symbol."""
     roots = {}
     for y in range(p):
         roots.setdefault(y * y % p, []).append(y)  # complete table of squares, no square-root algorithm
